@@ -164,8 +164,14 @@ def r3(ctx, facts, model):
     pops = [b for b in facts.bodies if b.self_ty == CACHE and b.argc == 1 and c12.is_shared_ref(b.ltype[1]) and "Option<u32>" in b.ltype[0].replace(" ", "")]
     ctx.floor("C10-R3", "deferred (shared-access) pop methods of the free list", len(pops), 1)
     for b in pops:
+        def recv(bb):
+            # `self.cache.get(i)` reaches the slice through Vec's Deref: look through it (benign C01-s1 / C02-s1: checked slot read + expect)
+            o = b.arg_origin(bb, 0)
+            if o[0] == "call" and b.term(o[1])["callee"].get("name") in ("deref", "deref_mut", "as_slice", "as_mut_slice", "borrow", "as_ref") and b.term(o[1])["args"]:
+                o = b.arg_origin(o[1], 0)
+            return model.field_of(b, o)
         idx = [(bb, t) for bb, t in b.calls() if t["callee"].get("name") in ("index", "get", "get_unchecked", "index_mut") and t["args"]
-               and model.field_of(b, b.arg_origin(bb, 0)) == ("cache",)]
+               and recv(bb) == ("cache",)]
         ok = bool(idx)
         why = "" if ok else "the deferred pop does not read a slot of the free list"
         for bb, t in idx:
